@@ -938,6 +938,7 @@ func (c *Ctx) RuleRxRebuild() *Result {
 		// find builder roots: string-building instructions that (transitively) consume an element
 		info := builderInfo{groups: map[int]bool{}}
 		roots := map[ssa.Value]bool{}
+		builderParam := map[ssa.Value]bool{}
 		var climb func(v ssa.Value, depth int) bool
 		climb = func(v ssa.Value, depth int) bool {
 			if depth > 8 {
@@ -965,6 +966,55 @@ func (c *Ctx) RuleRxRebuild() *Result {
 						}
 						found = true
 					}
+				case *ssa.Phi:
+					if _, isElem := elem[v]; !isElem && climb(x, depth+1) {
+						found = true
+					}
+				case *ssa.Call:
+					// a string-building helper of the repository (returns the text): the group, or the
+					// text built so far, arrives in its parameter; only what the helper returns counts
+					sf := staticFn(&x.Call)
+					if sf == nil || !c.P.IsRepoFn(sf) || len(sf.Blocks) == 0 || sf == s.fn || sf.Signature.Results().Len() != 1 || !isTextType(sf.Signature.Results().At(0).Type()) {
+						break
+					}
+					for i, a := range x.Call.Args {
+						if a != v || i >= len(sf.Params) {
+							continue
+						}
+						p := sf.Params[i]
+						g, isElem := elem[stripConv(v)]
+						if isElem {
+							elem[p] = g
+						} else {
+							builderParam[p] = true
+						}
+						before := map[ssa.Value]bool{}
+						for r := range roots {
+							before[r] = true
+						}
+						climb(p, depth+1)
+						used := false
+						for r := range roots {
+							if before[r] {
+								continue
+							}
+							if reachesReturn(r, 0) {
+								used = true
+							} else {
+								delete(roots, r)
+							}
+						}
+						if !used && reachesReturn(p, 0) {
+							used = true // handed back as it is
+						}
+						if used {
+							if !isElem {
+								roots[v] = true // the text built so far is complete at this point
+							}
+							climb(x, depth+1) // the returned text may be built upon further
+							found = true
+						}
+					}
 				case *ssa.Store:
 					// variadic backing array
 					if ia, ok := x.Addr.(*ssa.IndexAddr); ok && x.Val == v {
@@ -990,7 +1040,11 @@ func (c *Ctx) RuleRxRebuild() *Result {
 			}
 			return found
 		}
+		var elems []ssa.Value
 		for v := range elem {
+			elems = append(elems, v)
+		}
+		for _, v := range elems {
 			climb(v, 0)
 		}
 		for root := range roots {
@@ -1013,8 +1067,20 @@ func (c *Ctx) RuleRxRebuild() *Result {
 					info.constants = append(info.constants, sv)
 					continue
 				}
-				if isBuilderOf(op, roots) {
+				if isBuilderOf(op, roots) || builderParam[op] {
 					continue
+				}
+				if ph, ok := op.(*ssa.Phi); ok {
+					// the text built so far, with or without the optional part appended
+					all := true
+					for _, e := range ph.Edges {
+						if !roots[e] && !builderParam[e] {
+							all = false
+						}
+					}
+					if all {
+						continue
+					}
 				}
 				// a group that goes through a function before it is re-emitted is not re-emitted verbatim
 				if tc, isCall := op.(*ssa.Call); isCall {
@@ -1129,6 +1195,37 @@ func (c *Ctx) RuleRxRebuild() *Result {
 }
 
 func isBuilderOf(v ssa.Value, roots map[ssa.Value]bool) bool { return roots[v] }
+
+func isTextType(t types.Type) bool {
+	if b, ok := t.Underlying().(*types.Basic); ok {
+		return b.Kind() == types.String
+	}
+	if sl, ok := t.Underlying().(*types.Slice); ok {
+		if b, ok := sl.Elem().Underlying().(*types.Basic); ok {
+			return b.Kind() == types.Byte || b.Kind() == types.Uint8
+		}
+	}
+	return false
+}
+
+// reachesReturn: v is returned by its function (through phis and conversions).
+func reachesReturn(v ssa.Value, depth int) bool {
+	if depth > 5 {
+		return false
+	}
+	for _, r := range referrers(v) {
+		switch x := r.(type) {
+		case *ssa.Return:
+			return true
+		case *ssa.Phi, *ssa.Convert, *ssa.ChangeType:
+			if reachesReturn(x.(ssa.Value), depth+1) {
+				return true
+			}
+		}
+	}
+	return false
+}
+
 
 // onlyFeedsMessages: the built string ends up only in log events or error
 // texts (it is a message, not a rebuilt line).
